@@ -30,7 +30,10 @@ def spec_trail(spec, seq):
     trail = [spec]
     cur = spec
     for m in seq:
-        cur = R.apply(cur, m, strict=False)
+        try:
+            cur = R.apply(cur, m, strict=False)
+        except R.RefInvalid:
+            pass        # (histories: a later-introduced model may reuse a freed name)
         trail.append(cur)
     return trail
 
